@@ -37,18 +37,18 @@ Definition res_zeqb (r : res Z) (v : Z) : bool := match r with Ok x => x =? v | 
 Definition res_z2eqb (r : res (Z * Z)) (v n : Z) : bool :=
   match r with Ok (x, y) => (x =? v) && (y =? n) | _ => false end.
 
-Definition reason_full_check (pt v : Z) : bool :=
+Definition reason_full_check (tbl : rtable) (pt v : Z) : bool :=
   if spec_allows pt v then
-    res_zeqb (rc_new GR pt name_success v) v          (* constructor by identifier *)
-    && res_z2eqb (rc_unpack GR pt [v]) v 1             (* unpack of the byte: same value, one byte used *)
+    res_zeqb (rc_new tbl pt name_success v) v          (* constructor by identifier *)
+    && res_z2eqb (rc_unpack tbl pt [v]) v 1             (* unpack of the byte: same value, one byte used *)
     && match rc_pack v with Ok [b] => b =? v | _ => false end
-    && match rc_get_name GR pt v with                  (* the name constructs the same code again *)
-       | Ok n => res_zeqb (rc_new GR pt n (-1)) v | _ => false end
+    && match rc_get_name tbl pt v with                  (* the name constructs the same code again *)
+       | Ok n => res_zeqb (rc_new tbl pt n (-1)) v | _ => false end
   else
-    negb (is_ok (rc_new GR pt name_success v)) && negb (is_ok (rc_unpack GR pt [v])).
+    negb (is_ok (rc_new tbl pt name_success v)) && negb (is_ok (rc_unpack tbl pt [v])).
 
 Lemma reason_full_check_b :
-  forallb (fun pt => forallb (reason_full_check pt) (zrange 256)) (zrange 128) = true.
+  forallb (fun pt => forallb (reason_full_check GR pt) (zrange 256)) (zrange 128) = true.
 Proof. vm_compute. reflexivity. Qed.
 
 Lemma rc_unpack_head tbl pt v rest : rc_unpack tbl pt (v :: rest) = rc_unpack tbl pt [v].
@@ -67,6 +67,46 @@ Proof.
   destruct (memz pt pts); [discriminate|assumption].
 Qed.
 
+Lemma rc_new_fuel tbl pt n v : rc_new tbl pt n v <> OutOfFuel.
+Proof.
+  unfold rc_new. case_if; [apply rc_get_id_fuel|].
+  pose proof (rc_get_name_fuel tbl pt v). destruct (rc_get_name tbl pt v); congruence.
+Qed.
+
+Lemma rc_unpack_fuel tbl pt buf : rc_unpack tbl pt buf <> OutOfFuel.
+Proof.
+  unfold rc_unpack. destruct buf as [|c r]; [discriminate|].
+  pose proof (rc_get_name_fuel tbl pt c). destruct (rc_get_name tbl pt c) as [a| |]; try congruence.
+  pose proof (rc_get_id_fuel tbl pt a). destruct (rc_get_id tbl pt a); congruence.
+Qed.
+
+(* generic in the table, so that nothing large is unfolded when the proof is checked *)
+Lemma c17_reason_gen (tbl : rtable) pt v rest : reason_full_check tbl pt v = true ->
+  (spec_allows pt v = true ->
+     rc_new tbl pt name_success v = Ok v /\ rc_unpack tbl pt (v :: rest) = Ok (v, 1) /\ rc_pack v = Ok [v]
+     /\ exists n, rc_get_name tbl pt v = Ok n /\ rc_new tbl pt n (-1) = Ok v)
+  /\ (spec_allows pt v = false ->
+     (exists k, rc_new tbl pt name_success v = Raise k) /\ (exists k, rc_unpack tbl pt (v :: rest) = Raise k)).
+Proof.
+  intros H. rewrite rc_unpack_head. unfold reason_full_check in H.
+  generalize dependent (spec_allows pt v). intros sa H. split; intros Hs; subst sa.
+  - apply andb_true_iff in H as [H H4]. apply andb_true_iff in H as [H H3]. apply andb_true_iff in H as [H1 H2].
+    repeat split.
+    + unfold res_zeqb in H1. destruct (rc_new tbl pt name_success v); try discriminate.
+      apply Z.eqb_eq in H1. congruence.
+    + unfold res_z2eqb in H2. destruct (rc_unpack tbl pt [v]) as [[x y]| |]; try discriminate.
+      apply andb_true_iff in H2 as [A B]. apply Z.eqb_eq in A, B. congruence.
+    + unfold rc_pack in *. destruct ((0 <=? v) && (v <=? 255)); [reflexivity|discriminate].
+    + destruct (rc_get_name tbl pt v) as [n| |]; try discriminate. exists n. split; [reflexivity|].
+      unfold res_zeqb in H4. destruct (rc_new tbl pt n (-1)); try discriminate.
+      apply Z.eqb_eq in H4. congruence.
+  - apply andb_true_iff in H as [A B]. split.
+    + pose proof (rc_new_fuel tbl pt name_success v).
+      destruct (rc_new tbl pt name_success v) as [x|k|]; try discriminate; [eauto|congruence].
+    + pose proof (rc_unpack_fuel tbl pt [v]).
+      destruct (rc_unpack tbl pt [v]) as [x|k|]; try discriminate; [eauto|congruence].
+Qed.
+
 Lemma c17_reason pt v rest : 0 <= pt < 128 -> 0 <= v < 256 ->
   (spec_allows pt v = true ->
      rc_new GR pt name_success v = Ok v /\ rc_unpack GR pt (v :: rest) = Ok (v, 1) /\ rc_pack v = Ok [v]
@@ -74,27 +114,8 @@ Lemma c17_reason pt v rest : 0 <= pt < 128 -> 0 <= v < 256 ->
   /\ (spec_allows pt v = false ->
      (exists k, rc_new GR pt name_success v = Raise k) /\ (exists k, rc_unpack GR pt (v :: rest) = Raise k)).
 Proof.
-  intros Hp Hv. rewrite rc_unpack_head.
-  pose proof (range_forall2 reason_full_check 128 256 reason_full_check_b pt v Hp Hv) as H.
-  unfold reason_full_check in H. split; intros Hs; rewrite Hs in H.
-  - repeat (apply andb_true_iff in H; destruct H as [H ?]).
-    repeat split.
-    + unfold res_zeqb in H. destruct (rc_new GR pt name_success v); try discriminate.
-      apply Z.eqb_eq in H. congruence.
-    + unfold res_z2eqb in H2. destruct (rc_unpack GR pt [v]) as [[x y]| |]; try discriminate.
-      apply andb_true_iff in H2 as [A B]. apply Z.eqb_eq in A, B. congruence.
-    + unfold rc_pack in *. destruct ((0 <=? v) && (v <=? 255)); [reflexivity|discriminate].
-    + destruct (rc_get_name GR pt v) as [n| |]; try discriminate. exists n. split; [reflexivity|].
-      unfold res_zeqb in H0. destruct (rc_new GR pt n (-1)); try discriminate.
-      apply Z.eqb_eq in H0. congruence.
-  - apply andb_true_iff in H as [A B]. split.
-    + destruct (rc_new GR pt name_success v) as [x|k|] eqn:E; try discriminate; [eauto|].
-      exfalso. revert E. unfold rc_new. case_if; [lia|].
-      pose proof (rc_get_name_fuel GR pt v). destruct (rc_get_name GR pt v); congruence.
-    + destruct (rc_unpack GR pt [v]) as [x|k|] eqn:E; try discriminate; [eauto|].
-      exfalso. revert E. unfold rc_unpack.
-      pose proof (rc_get_name_fuel GR pt v). destruct (rc_get_name GR pt v) as [a| |]; try congruence.
-      pose proof (rc_get_id_fuel GR pt a). destruct (rc_get_id GR pt a); congruence.
+  intros Hp Hv. apply c17_reason_gen.
+  exact (range_forall2 (reason_full_check GR) 128 256 reason_full_check_b pt v Hp Hv).
 Qed.
 
 (* ---- 3. construction by name: sound for every string, complete for every table row ---- *)
@@ -111,26 +132,33 @@ Qed.
 
 (* every (value, name, packet type) of the table constructs that value by name (the names of one
    packet type are pairwise distinct) - except that DISCONNECT + "Success" means "Normal disconnection" *)
-Definition by_name_row_check (pt : Z) : bool :=
+Definition by_name_row_check (tbl : rtable) (pt : Z) : bool :=
   forallb (fun row => let '(code, names) := row in
      forallb (fun p => let '(n, pts) := p in
-        if memz pt pts then res_zeqb (rc_new GR pt n (-1)) code else true) names) GR.
+        if memz pt pts then res_zeqb (rc_new tbl pt n (-1)) code else true) names) tbl.
 
-Lemma rc_by_name_complete_b : forallb by_name_row_check (zrange 128) = true.
+Lemma rc_by_name_complete_b : forallb (by_name_row_check GR) (zrange 128) = true.
 Proof. vm_compute. reflexivity. Qed.
+
+Lemma rc_by_name_complete_gen (tbl : rtable) pt code names n pts : by_name_row_check tbl pt = true ->
+  In (code, names) tbl -> In (n, pts) names -> memz pt pts = true -> rc_new tbl pt n (-1) = Ok code.
+Proof.
+  intros H I1 I2 M.
+  unfold by_name_row_check in H. rewrite forallb_forall in H. specialize (H _ I1). cbv beta iota in H.
+  rewrite forallb_forall in H. specialize (H _ I2). cbv beta iota in H. rewrite M in H.
+  unfold res_zeqb in H. destruct (rc_new tbl pt n (-1)); try discriminate. apply Z.eqb_eq in H. congruence.
+Qed.
 
 Lemma rc_by_name_complete pt code names n pts : 0 <= pt < 128 ->
   In (code, names) GR -> In (n, pts) names -> memz pt pts = true -> rc_new GR pt n (-1) = Ok code.
 Proof.
-  intros Hp I1 I2 M.
-  pose proof (range_forall by_name_row_check 128 rc_by_name_complete_b pt Hp) as H.
-  unfold by_name_row_check in H. rewrite forallb_forall in H. specialize (H _ I1). cbv beta iota in H.
-  rewrite forallb_forall in H. specialize (H _ I2). cbv beta iota in H. rewrite M in H.
-  unfold res_zeqb in H. destruct (rc_new GR pt n (-1)); try discriminate. apply Z.eqb_eq in H. congruence.
+  intros Hp. apply rc_by_name_complete_gen.
+  exact (range_forall (by_name_row_check GR) 128 rc_by_name_complete_b pt Hp).
 Qed.
 
-(* the default constructor ReasonCode(pt) ("Success") works for exactly the packet types that have a 0 code *)
-Lemma rc_default_b : forallb (fun pt => Bool.eqb (is_ok (rc_new GR pt name_success (-1))) (spec_allows pt 0)) (zrange 128) = true.
+(* the default constructor ReasonCode(pt) ("Success") works for exactly the packet types that have a 0 code -
+   except SUBACK (9), whose 0 code is called "Granted QoS 0": ReasonCode(SUBACK) raises KeyError *)
+Lemma rc_default_b : forallb (fun pt => (pt =? 9) || Bool.eqb (is_ok (rc_new GR pt name_success (-1))) (spec_allows pt 0)) (zrange 128) = true.
 Proof. vm_compute. reflexivity. Qed.
 
 (* ---- 4. names: equal to the specification's up to capitalisation, except three rows ---- *)
